@@ -4,6 +4,8 @@ import JaqalProofs.Lemmas.SepExchange
 import JaqalProofs.Lemmas.ParserErrPos
 import JaqalProofs.Lemmas.LexerSpec
 import JaqalProofs.Lemmas.ParserFuel
+import JaqalProofs.Lemmas.LexerLayout
+import JaqalProofs.Lemmas.NLRuns
 /-!
 # C02 — the parser accepts exactly the Jaqal grammar
 
@@ -178,21 +180,100 @@ def C02_error_pos_full : Prop :=
       (∃ suffix t, Derives (before.map (·.tok) ++ suffix) t) ∧
       ¬ (∃ suffix t, Derives ((before ++ [p]).map (·.tok) ++ suffix) t)
 
-/-! ## Layout (stated, not proved in Lean) -/
+/-! ## Layout
 
-/-- The layout half of C02 at the level of texts, NOT proved here: a comment between two pieces of text
-lexes like a blank between them (up to positions), provided the first piece lexes without error and the
-comment is a block comment without a newline (a newline matters only when the first piece ends inside a
-`//` comment, which the blank would not terminate).  What IS proved: `C02_no_drop` (blanks and comments are the only
-characters that yield no token) and, on token strings, `C02_sep_exchange*` (separator choice) and
-`C02_accepts_iff` (padding / repetition of separators is exactly what `seqpad`/`seqsep`/`parpad`/`parsep`
-allow).  The text-level statement is exercised on the real code by the harness oracle
-`relayout_same_sexpr`. -/
-def C02_layout_full : Prop :=
-  ∀ (a b comment : String) (ts : List PTok),
-    lex a = .ok ts → IsBlockComment comment.toList → '\n' ∉ comment.toList →
-    (lexAll (a ++ comment ++ b)).1.map (·.tok) = (lexAll (a ++ " " ++ b)).1.map (·.tok) ∧
-    ((lexAll (a ++ comment ++ b)).2.isSome ↔ (lexAll (a ++ " " ++ b)).2.isSome)
+`LayoutEq` (`Lemmas/LexerLayout.lean`) is the equivalence generated by `GapInsert`: inserting, at a place
+the tokenizer reaches (between two tokens, comments or blanks), a space or tab, a block comment, a `//`
+comment in front of a newline or at the end of the text, or a newline next to a newline token.
+The proof has three parts: the tokenizer's decisions before the place do not depend on the inserted text
+(`Lemmas/LexerStable.lean`), the inserted piece yields no token or one more NL token next to an NL token
+(`GapInsert.lexT`), and the grammar does not count consecutive newlines (`derives_dup_nl`,
+`Lemmas/NLRuns.lean`). -/
+
+/-- `parse_to_sexpression` succeeds exactly when the whole text lexes and its token string is a program. -/
+theorem parseText_ok_iff (s : String) (x : Sx) :
+    parseText s = .ok x ↔ (lexT s.toList).2 = false ∧ Derives (lexT s.toList).1 x := by
+  have hl := lexAll_lexT s
+  unfold parseText
+  split
+  · rename_i ts hlex
+    rw [hlex] at hl
+    simp only [Option.isSome_none] at hl
+    rw [← hl]
+    simp only [true_and]
+    split
+    · rename_i y hy
+      constructor
+      · intro h; cases h; exact C02_sound hy
+      · intro h; rw [C02_complete h] at hy; cases hy; rfl
+    · rename_i e he
+      constructor
+      · intro h; cases h
+      · intro h; rw [C02_complete h] at he; cases he
+  · rename_i ts le hlex
+    rw [hlex] at hl
+    simp only [Option.isSome_some] at hl
+    rw [← hl]
+    constructor
+    · intro h
+      split at h
+      · cases h
+      · split at h <;> cases h
+    · intro h; cases h.1
+
+theorem gapInsert_accepts {a a' : List Char} (h : GapInsert a a') (x : Sx) :
+    ((lexT a).2 = false ∧ Derives (lexT a).1 x) ↔ ((lexT a').2 = false ∧ Derives (lexT a').1 x) := by
+  rcases h.lexT with h | ⟨u, v, e, h1, h2⟩
+  · rw [h]
+  · rw [h1, h2]
+    simp only
+    rw [derives_dup_nl u v x]
+
+theorem layoutEq_accepts {a a' : List Char} (h : LayoutEq a a') (x : Sx) :
+    ((lexT a).2 = false ∧ Derives (lexT a).1 x) ↔ ((lexT a').2 = false ∧ Derives (lexT a').1 x) := by
+  induction h with
+  | refl a => exact Iff.rfl
+  | ins h => exact gapInsert_accepts h x
+  | symm _ ih => exact ih.symm
+  | trans _ _ ih1 ih2 => exact ih1.trans ih2
+
+/-- Layout does not matter: two texts that differ by inserted (or removed) blanks, comments and blank
+lines (`LayoutEq`, generated by `GapInsert`) are both rejected, or both accepted with the same tree. -/
+theorem C02_layout {txt txt' : String} (h : LayoutEq txt.toList txt'.toList) (t : Sx) :
+    parseText txt = .ok t ↔ parseText txt' = .ok t := by
+  rw [parseText_ok_iff, parseText_ok_iff]
+  exact layoutEq_accepts h t
+
+
+/-- non-vacuity of `C02_layout`: blanks, a multi-line block comment, a `//` comment and a blank line
+inserted in the middle of a text. -/
+theorem layout_run1 : Run "g a\n h".toList "\n h".toList [.IDENTIFIER "g", .IDENTIFIER "a"] false :=
+  .tok (r := " a\n h".toList) (nl := 0) (by rfl)
+    (.ws (by rfl) (.tok (r := "\n h".toList) (nl := 0) (by rfl) (.refl _)))
+
+theorem layout_run2 : Run "g a\n h".toList " h".toList [.IDENTIFIER "g", .IDENTIFIER "a", .NL] false :=
+  .tok (r := " a\n h".toList) (nl := 0) (by rfl)
+    (.ws (by rfl) (.tok (r := "\n h".toList) (nl := 0) (by rfl)
+      (.tok (r := " h".toList) (nl := 1) (by rfl) (.refl _))))
+
+example : LayoutEq "g a\n h".toList "g a \n h".toList :=
+  .ins (GapInsert.blank (x := "g a".toList) layout_run1 (by rfl))
+example : LayoutEq "g a\n h".toList "g a/* x\n **/\n h".toList :=
+  .ins (GapInsert.block (x := "g a".toList) (w := "/* x\n **/".toList) layout_run1 ⟨_, rfl⟩ (Or.inl rfl))
+example : LayoutEq "g a\n h".toList "g a// c */\n h".toList :=
+  .ins (GapInsert.line (x := "g a".toList) (w := "// c */".toList) layout_run1
+    ⟨_, rfl, by decide⟩ (Or.inr ⟨_, rfl⟩))
+example : LayoutEq "g a\n h".toList "g a\n\n h".toList :=
+  .ins (GapInsert.newline (x := "g a\n".toList) layout_run2
+    (Or.inl ⟨[.IDENTIFIER "g", .IDENTIFIER "a"], rfl⟩))
+/-- a blank line with a blank on it: `"\n "` becomes `"\n \n"` -/
+example : LayoutEq "g a\n h".toList "g a\n \nh".toList :=
+  .ins (GapInsert.newline (x := "g a\n ".toList) (b := "h".toList)
+    (ts := [.IDENTIFIER "g", .IDENTIFIER "a", .NL]) (lc := false)
+    (.tok (r := " a\n h".toList) (nl := 0) (by rfl)
+      (.ws (by rfl) (.tok (r := "\n h".toList) (nl := 0) (by rfl)
+        (.tok (r := " h".toList) (nl := 1) (by rfl) (.ws (by rfl) (.refl _))))))
+    (Or.inl ⟨[.IDENTIFIER "g", .IDENTIFIER "a"], rfl⟩))
 
 /-! Non-vacuity: a program with a header, a loop over a parallel block, a subcircuit. -/
 
@@ -235,5 +316,6 @@ example : isErrAt (parseText "register q[0]") 1 1 = true := by decide +kernel
 #print axioms C02_sep_exchange_result
 #print axioms C02_no_drop
 #print axioms C02_error_pos_partial
+#print axioms C02_layout
 
 end Jaqal.C02
